@@ -263,6 +263,8 @@ class Inventory:
                 if isinstance(parent, ast.Assign) and len(parent.targets) == 1:
                     target = unparse(parent.targets[0])
                 pat = self.folder.try_ev(mn, call.args[0], default=None) if call.args else None
+                if isinstance(pat, tuple) and not (len(pat) == 3 and isinstance(pat[1], Opaque)):
+                    pat = None
                 if pat is not None and func is None and flags is not None and isinstance(pat, str):
                     self.regexes.append(Rx(f'{mn}.{target}', pat, int(flags), mn, mod.where(call), 'module', call))
                     continue
@@ -355,14 +357,27 @@ class Inventory:
         if not call.args or func is None:
             return None
         a0 = call.args[0]
-        if not (isinstance(a0, ast.BinOp) and isinstance(a0.op, ast.Mod) and isinstance(a0.right, ast.Name)):
+        if not (isinstance(a0, ast.BinOp) and isinstance(a0.op, ast.Mod)):
             return None
         fmt = self.folder.try_ev(mn, a0.left, default=None)
-        if not isinstance(fmt, str) or fmt.count('%s') != 1:
+        if not isinstance(fmt, str) or fmt.count('%s') != 1 or '%' in fmt.replace('%s', ''):
             return None
-        fn = mod.functions[func]
-        var = a0.right.id
         alts: list[Any] = []
+        if not isinstance(a0.right, ast.Name):
+            # hole given inline, e.g. `(re.escape(value) if value else r'[^\s\S]')`
+            def add_inline(v: ast.AST) -> bool:
+                if isinstance(v, ast.IfExp):
+                    return add_inline(v.body) and add_inline(v.orelse)
+                val = self.folder.try_ev(mn, v, default=None)
+                if isinstance(val, (str, Opaque)):
+                    alts.append(val)
+                    return True
+                return False
+            if not add_inline(a0.right):
+                return None
+            a, b = fmt.split('%s')
+            return [(a, v, b) if isinstance(v, Opaque) else (a + v + b,) for v in alts]
+        var = a0.right.id
 
         def add(v: ast.AST) -> bool:
             if isinstance(v, ast.IfExp):
